@@ -228,6 +228,93 @@ class AbsKDDataset(VAbs):
 
 KDDATASET = TAbs(lambda name, idx: AbsKDDataset(name, idx), "kd-dataset")
 
+def _upd(seq, k, v):
+    return VSeq(seq.len, lambda i, seq=seq, k=k, v=v: ite(i == k, v, seq.elem(i)), seq.etype)
+
+
+class AbsTransform(VAbs):
+    """a member transform (any object handed to a composition): calls that matter for C07/C09/C15 are recorded in
+    ghost maps indexed by the member's position: g_scaled / g_scaled_f (scale_strength), g_rng (set_rng), g_winit
+    (worker_init_fn / _worker_init_fn), g_applied (__call__). isinstance(t, KDTransform) is a symbolic fact per member."""
+    label = "transform"
+
+    def __init__(self, name, idx=()):
+        self.name, self.idx = name, tuple(idx)
+        self.is_kd = _fn(name + "$is_kd", idx, z3.BoolSort())
+
+    def key(self):
+        return (self.name, self.idx)
+
+    def pos(self):
+        return self.idx[0] if self.idx else z3.IntVal(0)
+
+    def isinstance(self, clsname, st, eng):
+        if clsname.endswith("KDTransform"):
+            return self.is_kd
+        return _fn(self.name + "$isinst$" + clsname.split("::")[-1], self.idx, z3.BoolSort())
+
+    def hasattr(self, name, st, eng):
+        return z3.BoolVal(True)
+
+    def _record(self, st, g, value):
+        if g in st.ghost:
+            st.ghost[g] = _upd(st.ghost[g], self.pos(), value)
+
+    def getattr(self, name, st, eng):
+        if name == "scale_strength":
+            def f(args, kwargs, s, e):
+                self._record(s, "g_scaled", VBool(True))
+                self._record(s, "g_scaled_f", VReal(_e.to_real(e.deref(args[0], s))))
+                if "g_nscaled" in s.ghost:
+                    s.ghost["g_nscaled"] = VInt(s.ghost["g_nscaled"].t + 1)
+                return NONEV
+            return VFunc("member.scale_strength", f)
+        if name == "set_rng":
+            def f(args, kwargs, s, e):
+                self._record(s, "g_rng", args[0] if isinstance(args[0], VVal) else as_val(args[0]))
+                self._record(s, "g_rng_set", VBool(True))
+                return self
+            return VFunc("member.set_rng", f)
+        if name in ("worker_init_fn", "_worker_init_fn"):
+            def f(args, kwargs, s, e):
+                self._record(s, "g_winit", VBool(True))
+                return NONEV
+            return VFunc("member." + name, f)
+        if name == "is_deterministic":
+            return VBool(_fn(self.name + "$det", self.idx, z3.BoolSort()))
+        raise KeyError(name)
+
+    def call_method(self, name, args, kwargs, st, eng):
+        if name == "__call__":
+            x = args[0]
+            xt = x.t if isinstance(x, VVal) else fresh(VAL, "x").t
+            n = st.ghost["g_napplied"].t if "g_napplied" in st.ghost else z3.IntVal(0)
+            if "g_napplied" in st.ghost:
+                st.ghost["g_napplied"] = VInt(n + 1)
+            self._record(st, "g_applied", VBool(True))
+            f = z3.Function(self.name + "$apply", *([z3.IntSort()] * len(self.idx)), ValSort, z3.IntSort(), ValSort)
+            return [(st, VVal(f(*self.idx, xt, n)))]
+        raise Unsupported(f"transform.{name}")
+
+
+class AbsSchedule(VAbs):
+    label = "schedule"
+
+    def __init__(self, name, idx=()):
+        self.name, self.idx = name, tuple(idx)
+
+    def getattr(self, name, st, eng):
+        if name == "get_value":
+            def f(args, kwargs, s, e):
+                a, b = _e.to_int(e.deref(args[0], s)), _e.to_int(e.deref(args[1], s))
+                return VReal(z3.Function(self.name + "$value", z3.IntSort(), z3.IntSort(), z3.RealSort())(a, b))
+            return VFunc("schedule.get_value", f)
+        raise KeyError(name)
+
+
+TRANSFORM = TAbs(lambda name, idx: AbsTransform(name, idx), "transform")
+SCHEDULE = TAbs(lambda name, idx: AbsSchedule(name, idx), "schedule")
+
 SAMPLER = TAbs(lambda name, idx: AbsSampler(name, idx), "sampler")
 DATASET = TAbs(lambda name, idx: AbsDataset(name, idx), "dataset")
 CALLABLE = TAbs(lambda name, idx: AbsCallable(name, idx), "callable")
@@ -263,6 +350,26 @@ def install_spec_builtins(eng):
     def attr(args, kwargs, st, eng):
         return args[0].getattr(args[1].s, st, eng)
     eng.spec_builtins["Attr"] = VFunc("Attr", attr)
+
+    def iskd(args, kwargs, st, eng):
+        return VBool(args[0].is_kd)
+    eng.spec_builtins["IsKD"] = VFunc("IsKD", iskd)
+
+    def sched(args, kwargs, st, eng):
+        f = args[0].getattr("get_value", st, eng)
+        return f.fn(list(args[1:]), {}, st, eng)
+    eng.spec_builtins["SchedValue"] = VFunc("SchedValue", sched)
+
+    def dict_get(args, kwargs, st, eng):
+        d = args[0].inner if isinstance(args[0], VOpt) else args[0]
+        present, val = eng.dict_get(d, args[1], st)
+        return val if val is not None else NONEV
+    eng.spec_builtins["DictGet"] = VFunc("DictGet", dict_get)
+
+    def dict_has(args, kwargs, st, eng):
+        d = args[0].inner if isinstance(args[0], VOpt) else args[0]
+        return VBool(eng.dict_get(d, args[1], st)[0])
+    eng.spec_builtins["DictHas"] = VFunc("DictHas", dict_has)
 
     def call_attr(args, kwargs, st, eng):
         f = args[0].getattr(args[1].s, st, eng)
